@@ -2,6 +2,7 @@ package sysbind
 
 import (
 	"fmt"
+	"sort"
 	"strings"
 
 	"github.com/DistCompiler/pgo/distsys/tla"
@@ -114,6 +115,9 @@ func DriveRaft(t *rapid.T, d RaftDriveOpts) (*RaftRun, string) {
 		}
 	}
 	fdDelay := rapid.IntRange(0, 100).Draw(t, "fd-delay")
+	// partitions: every so many attempts a new set of cut-off servers is drawn (their traffic waits)
+	partitionEvery := rapid.SampledFrom([]int{0, 0, 150, 400}).Draw(t, "partition-every")
+	nextPartition := partitionEvery
 	var all []*sched.Instance
 	for _, g := range r.Servers {
 		all = append(all, g...)
@@ -137,6 +141,23 @@ func DriveRaft(t *rapid.T, d RaftDriveOpts) (*RaftRun, string) {
 			}
 			if step >= at+fdDelay && r.Crashed[s] {
 				r.FDKnows[s] = true
+			}
+		}
+		if partitionEvery > 0 && step >= nextPartition {
+			nextPartition = step + partitionEvery
+			iso := map[int]bool{}
+			if rapid.IntRange(0, 3).Draw(t, "partition-on") > 0 {
+				for s := 1; s <= n; s++ {
+					if rapid.IntRange(0, 2).Draw(t, "cut-off") == 0 {
+						iso[s] = true
+					}
+				}
+			}
+			r.Isolate(iso)
+			if len(iso) > 0 {
+				fmt.Fprintf(&run.Hist, "-- servers %v are cut off from step %d\n", sortedKeys(iso), step)
+			} else {
+				fmt.Fprintf(&run.Hist, "-- network healed at step %d\n", step)
 			}
 		}
 		var cand []*sched.Instance
@@ -215,6 +236,15 @@ func DriveRaft(t *rapid.T, d RaftDriveOpts) (*RaftRun, string) {
 		}
 	}
 	return run, ""
+}
+
+func sortedKeys(m map[int]bool) []int {
+	var ks []int
+	for k := range m {
+		ks = append(ks, k)
+	}
+	sort.Ints(ks)
+	return ks
 }
 
 func short(pc string) string {
